@@ -495,10 +495,10 @@ class Interp:
             short = name.split('.')[-1]
             if name in self.stubs or short in self.stubs:
                 return (self.stubs.get(name) or self.stubs[short])(self, args, kwargs)
-            if short in CASTS and len(args) == 1 and not kwargs:
-                return args[0]
             if short in self.classes:
                 return self.classes[short](*args, **kwargs)
+            if short in CASTS and len(args) == 1 and not kwargs:
+                return args[0]
             if short == 'isinstance' and len(args) == 2:
                 raise Unsupported('isinstance in a finite model')
             if short in ('print', 'log'):
